@@ -3,7 +3,7 @@ from engine_api import Cond
 PROPERTY = 'C14'
 LEVEL = 'other'
 ASSUMPTIONS = [
-    'base model: fixtures/Simple_Model.xtuml (5 classes; linked reflexive association with phrases, subtype association, two simple associations; UDT and enumeration types) with the ooaofooa globals',
+    'base models: fixtures/Simple_Model.xtuml (5 classes; linked reflexive association with phrases, subtype association, two simple associations; UDT and enumeration types, one component) and fixtures/interp_model.xtuml (3 classes, linked reflexive and simple association, a derived attribute, enumeration, no component), each with the ooaofooa globals',
     'metamorphic oracle: the component built from the edited model must equal the baseline signature transformed by the same edit (written from the property statement, independent of mk_class / mk_*_association)',
     'Mult / Cond are symbolic integers in 0..1, phrases symbolic strings of length <= 3; edit sites are case-split',
     'one edit per run (edit scripts of length 1); class synthesis from abstract diagrams is not covered',
@@ -19,5 +19,9 @@ def conditions(tier, seed):
             ('reorder', 'check_reorder', 'swap the first two attributes in the R103 chain of every class with two attributes', [], ['si']),
             ('identifier', 'check_identifier', 'add every attribute to the second identifier of its class', [], ['si']),
             ('variants', 'check_variants', 'whole model / named component / build_component / derived attributes / 3 row orders of the model text / SQL schema round trip', [], ['which'])]
-    return [Cond(n, 'c14_comp.py', dict(edit=n), func=f, timeout=t, bound=b, symbolic=s, case_split=c,
-                 realised=['model text (PLY, outside the tracer)']) for n, f, b, s, c in spec]
+    out = []
+    for fx in ('Simple_Model', 'interp_model'):
+        for n, f, b, s, c in spec:
+            out.append(Cond('%s_%s' % (fx, n), 'c14_comp.py', dict(edit=n, fixture=fx), func=f, timeout=t,
+                            bound='%s: %s' % (fx, b), symbolic=s, case_split=c, realised=['model text (PLY, outside the tracer)']))
+    return out
